@@ -628,6 +628,9 @@ func hostileBodies() []bodyClass {
 		}},
 		{"big-1.1M-garbage", func(rng *rand.Rand) []byte { return backend.RandBytes(rng, 1100<<10, true) }},
 		{"nameless-and-duplicate-entries", func(*rand.Rand) []byte { return []byte(listingSeeds[len(listingSeeds)-1]) }},
+		{"duplicates-then-more", func(*rand.Rand) []byte {
+			return []byte(`{"models":[{"name":"dup-a"},{"name":"dup-a"},{"name":"after-dup-b"},{"name":"after-dup-c"}]}`)
+		}},
 		{"mutated-listing", func(rng *rand.Rand) []byte { return mutate(rng, []byte(listingSeeds[rng.Intn(8)]), listingSeeds) }},
 		{"field-state-listing-a", fieldStateOllama}, {"field-state-listing-b", fieldStateOllama}, {"field-state-listing-c", fieldStateOllama},
 		{"field-state-listing-d", fieldStateOllama}, {"field-state-listing-e", fieldStateOllama}, {"field-state-listing-f", fieldStateOllama},
@@ -824,10 +827,23 @@ func partB(run *rep.Run, seed int64) {
 			}
 			for _, n := range before {
 				if !contains(after, n) {
+					// (a name that differs only in letter case from one the endpoint still lists may
+					// legitimately resolve to it through the unified catalogue's aliases)
+					viaAlias := false
+					for _, a := range after {
+						if strings.EqualFold(a, n) {
+							viaAlias = true
+						}
+					}
+					for k := 0; asyncPending() && k < 3000; k++ {
+						time.Sleep(time.Millisecond)
+					}
 					eps, _ := w.Registry().GetEndpointsForModel(ctx, n)
 					for _, e := range eps {
-						if e == epURL {
+						if e == epURL && viaAlias {
 							run.Count("observation_dropped_model_still_resolves_to_endpoint", 1)
+						} else if e == epURL {
+							run.Violation("C20/catalogue/dropped-model-still-attributed", fmt.Sprintf("%q was in the endpoint's previous listing and is not in the one that replaced it, yet the model->endpoints lookup still returns the endpoint", n), wit)
 						}
 					}
 				}
